@@ -225,7 +225,11 @@ func randFut(r *rand.Rand, nsrc, depth int) *EProg {
 			p = &EProg{K: "supp"}
 			n := 1 + r.Intn(3)
 			for i := 0; i < n; i++ {
-				p.Steps = append(p.Steps, EStep{T: []string{"val", "sup"}[r.Intn(2)], P: sub()})
+				st := EStep{T: []string{"val", "sup", "pure", "func"}[r.Intn(4)], P: sub()}
+				if st.T == "pure" || st.T == "func" {
+					st.P = &EProg{K: "unit", V: []int{r.Intn(5)}}
+				}
+				p.Steps = append(p.Steps, st)
 			}
 			if n == 2 && r.Intn(2) == 0 {
 				p.Steps[0].T, p.Steps[1].T = "val", "sup"
